@@ -263,6 +263,16 @@ func corpus(c *ev.Ctx) []item {
 			}
 		})
 	}
+	// annotations with a note AND a user comment behind it, last in the text and followed by more lines
+	for _, s := range []string{
+		"{\n  \"id\": 1 // {min: 0} - the id # internal\n}",
+		"{\n  \"id\": 1, // {min: 0} - the id # internal\n  \"n\": 2\n}",
+		"[\n  1, // note only # c\n  2 // {min: 0} # c\n]",
+		"{\n  \"id\": 1 /* {min: 0} - note */ # c\n}",
+		"{ # c\n  \"id\": 1 # c\n}",
+	} {
+		add(item{"schema", s, strings.HasPrefix(s, "1 //"), false})
+	}
 	for _, s := range []string{"@a", "@a | @b", "@a|@b", "@abc-1 | @b_2", "{\n  \"k\": @a\n}", "[\n  @a | @b\n]", "{\n  @a: 1\n}", "{\n  @a: @b\n}"} {
 		add(item{"schema", s, false, false})
 	}
